@@ -181,5 +181,6 @@ class Identifier(Node):
             str (CSS)
         """
         name = ',$$'.join(''.join(p).strip() for p in self.parsed)
-        name = re.sub('\?(.)\?', '%(ws)s\\1%(ws)s', name) % fills
+        ws = fills['ws']
+        name = re.sub('\?(.)\?', lambda m: ws + m.group(1) + ws, name)
         return name.replace('$$', fills['nl']).replace('  ', ' ')
